@@ -1146,4 +1146,11 @@ Definition w2 (c : N) : world := run_events kof oracle (w1 c) hist.
 Definition w3 (c : N) : world := fst (do_request kof oracle (w2 c) r1).
 Definition o1 (c : N) : outcome := snd (do_request kof oracle (w2 c) r1).
 
+(* an object instrumented for coverage *)
+Definition rcov : request :=
+  {| rq_tag := 4; rq_lang := LangC; rq_compiler := 7;
+     rq_args := [AProfile [45; 102]; AOutput a_o];
+     rq_env := []; rq_env_deps := []; rq_cwd := [47; 119]; rq_inputs := [11];
+     rq_outputs := [out obj_role a_o]; rq_ppkey := None |}.
+
 End C03Example.
